@@ -13,7 +13,7 @@ from pyvc.models import model
 
 from .model import (
     ASYN, BASE, C, ENV_MODIFIES, INITIAL_ID, INL, SMQ, SYNC, W, AsyncBinding, locked, mstate, others_kept,
-    prefix_kept, qarr, qh, qt, queue_items_valid, rtc, wf_class, wf_registry, wf_world, valid_obj, smap_has,
+    prefix_kept, qarr, qh, qt, queue_items_valid, rtc, wf_class, wf_registry, wf_world, valid_obj, smap_has, wf_cache,
 )
 from .engines import ProcessingLoop, is_exception, queue_effect, td_valid
 from .callbacks import none_swallowed
@@ -240,6 +240,7 @@ class EventCall(Contract):
         f = dict(wf_world(s))
         f.update(wf_class(s))
         f["registry-wf"] = wf_registry(s)
+        f["state-cache-wf"] = wf_cache(s)
         f["queue-items-valid"] = queue_items_valid(s)
         f["bound-to-this-machine"] = s.sel("Event._sm", a.self.e) == W.SM
         f["kwargs-is-not-the-registry"] = a.kwargs.e != W.REGD
@@ -366,6 +367,7 @@ class Send(Contract):
         f = dict(wf_world(s))
         f.update(wf_class(s))
         f["registry-wf"] = wf_registry(s)
+        f["state-cache-wf"] = wf_cache(s)
         f["queue-items-valid"] = queue_items_valid(s)
         f["self-is-machine"] = a.self.e == W.SM
         f["kwargs-is-not-the-registry"] = a.kwargs.e != W.REGD
@@ -407,3 +409,31 @@ def _eventnames_contains(ex, path, container, item):
 
 from pyvc.execu import CONTAINS_HOOKS  # noqa: E402
 CONTAINS_HOOKS["eventnames"] = _eventnames_contains
+
+
+# =========================================================================== the async world
+# Same heap, same contracts; only the static type of `sm._engine` differs, which is what selects the
+# AsyncEngine bindings of the shared contracts at call sites.
+_smf = dict(CLASSES["StateMachine"].fields)
+_smf["_engine"] = "AsyncEngine"
+ClassModel("AStateMachine", heapname="StateMachine", fields=_smf, props=CLASSES["StateMachine"].props,
+           setters=CLASSES["StateMachine"].setters, methods=CLASSES["StateMachine"].methods,
+           py_fields=CLASSES["StateMachine"].py_fields)
+CLASSES["AStateMachine"].getattr_fn = sm_getattr
+_evf = dict(CLASSES["Event"].fields)
+_evf["_sm"] = "Opt[AStateMachine]"
+ClassModel("ABoundEvent", heapname="Event", fields=_evf, eq_fn=CLASSES["Event"].eq_fn,
+           methods={"__call__": C(EVQ + "Event.__call__#async")})
+CLASSES["ABoundEvent"].as_str = CLASSES["Event"].as_str
+CLASSES["ABoundEvent"].ctor = event_ctor("ABoundEvent")
+
+
+@register
+class AsyncEventCall(AsyncBinding, EventCall):
+    """Event.__call__ on a machine with an AsyncEngine: the same contract, on the awaited result
+    (run_async_from_sync either runs the coroutine here or hands it to the running loop)."""
+
+    qualnames = [EVQ + "Event.__call__#async"]
+    real_qualname = EVQ + "Event.__call__"
+    params = [("self", "ABoundEvent"), ("*args", "tuple"), ("**kwargs", "dict[str,Val]")]
+    properties = ["C05"]
